@@ -12,7 +12,7 @@ import time
 VERIF = os.path.dirname(os.path.dirname(os.path.abspath(__file__)))
 REPO = os.environ.get("VX_REPO", "/repo")
 WORK = os.path.join(VERIF, ".work")
-EXTRACT = os.path.join(VERIF, "tools", "vx-extract", "target", "release", "vx-extract")
+EXTRACT = os.environ.get("VX_EXTRACT") or os.path.join(VERIF, "tools", "vx-extract", "target", "release", "vx-extract")
 UNITS = os.path.join(VERIF, "units")
 REPLAYS = os.path.join(VERIF, "replays")
 # VX_EVIDENCE_DIR: checks run against a deliberately changed tree (selftest / seeded changes) write their evidence elsewhere,
@@ -887,6 +887,11 @@ def dependency_index():
                 (assumed if sct.opts.get("assume") else verified)[n].add((sct.file, sct.name))
             elif sct.kind == "raw":
                 txt.append(sct.text)
+            elif sct.kind == "include":
+                try:
+                    txt.append(open(os.path.join(VERIF, sct.file)).read())
+                except OSError:
+                    pass
         size[n] = k
         rawtext[n] = "\n".join(txt)
     allv = set(nm for n in verified for (_, nm) in verified[n])
